@@ -1297,3 +1297,89 @@ func historyString(h []Call) string {
 	}
 	return strings.Join(parts, " ")
 }
+
+// ConstProbe builds a program that combines ONE named constant K of type `base`
+// with a run-time argument through every arithmetic operator, in both operand
+// positions: `this.r = K op args.a` / `this.r = args.a op K`, one impure void
+// method each (the generated C writes a constant operand as a bare literal whose
+// C type depends on the value, not on the Wuffs type: shifts and conversions
+// are where that matters). A method is kept iff the checker accepts it; the
+// returned histories call every kept method on the extremes of its parameter.
+func (g *Gen) ConstProbe(base string, k *big.Int) (*Prog, []string) {
+	p := &Prog{Consts: []Const{{"K0", base, k}}, Fields: []Var{{"r", Ty{Base: base}}, {"a0", Ty{Base: "u8", ArrLen: 2}}}}
+	g.p = p
+	bits := baseInfo[base].Bits
+	_, hi := baseBounds(base)
+	var hists []string
+	add := func(text string, pty Ty) bool {
+		f := &Func{Name: fmt.Sprintf("c%d", len(p.Funcs)), Pub: true, Effect: "!", Params: []Var{{"a", pty}}}
+		f.Body = []*Stmt{{Kind: "simple", Text: "this.r = " + text, Tag: "const-probe"}}
+		g.fn = f
+		p.Funcs = append(p.Funcs, f)
+		if !g.accepted() {
+			p.Funcs = p.Funcs[:len(p.Funcs)-1]
+			g.count("constprobe:rejected")
+			return false
+		}
+		g.count("constprobe:kept")
+		lo, phi := pty.Bounds()
+		mid := new(big.Int).Add(lo, phi)
+		mid.Rsh(mid, 1)
+		var calls []string
+		for _, v := range []*big.Int{lo, phi, mid, new(big.Int).Sub(phi, bi(1))} {
+			if v.Cmp(lo) >= 0 && v.Cmp(phi) <= 0 {
+				calls = append(calls, fmt.Sprintf("%s(%s)", f.Name, v.String()))
+			}
+		}
+		hists = append(hists, strings.Join(calls, " "))
+		return true
+	}
+	for _, op := range arithOps {
+		for pos := 0; pos < 2; pos++ {
+			l, r := "K0", "args.a"
+			if pos == 1 {
+				l, r = r, l
+			}
+			// parameter types to try, most general first
+			var tys []Ty
+			shift := op == "<<" || op == ">>" || op == "~mod<<"
+			switch {
+			case shift && pos == 0:
+				tys = []Ty{{Base: "u32", Hi: bi(int64(bits - 1))}, {Base: "u32", Hi: bi(int64(bits / 2))}, {Base: "u32", Hi: bi(1)}}
+			case shift:
+				tys = nil // `args.a << K`: K would have to be below the width; covered by the generator's literals
+				if k.Cmp(bi(int64(bits))) < 0 {
+					tys = []Ty{{Base: base}, {Base: base, Hi: bi(1)}}
+				}
+			case op == "/" || op == "%":
+				if pos == 0 {
+					tys = []Ty{{Base: base, Lo: bi(1)}}
+				} else if k.Sign() > 0 {
+					tys = []Ty{{Base: base}}
+				}
+			case op == "-" && pos == 0:
+				tys = []Ty{{Base: base, Hi: k}}
+			case op == "-":
+				tys = []Ty{{Base: base, Lo: k}}
+			default:
+				tys = []Ty{{Base: base}, {Base: base, Hi: new(big.Int).Sub(hi, k)}, {Base: base, Hi: bi(3)}, {Base: base, Hi: bi(1)}}
+			}
+			for _, ty := range tys {
+				if ty.Hi != nil && ty.Hi.Sign() < 0 {
+					continue
+				}
+				if ty.Lo != nil && ty.Hi == nil && ty.Lo.Cmp(hi) > 0 {
+					continue
+				}
+				if add(paren(l)+" "+op+" "+paren(r), ty) {
+					break
+				}
+			}
+		}
+	}
+	// conversions of the constant combined with the argument in a wider type
+	if base != "u64" {
+		add("((K0 as base.u64) >> (args.a as base.u32)) as base."+base, Ty{Base: "u32", Hi: bi(63)})
+	}
+	return p, hists
+}
